@@ -19,8 +19,8 @@ impl Check for C12 {
     }
     fn profiles(&self) -> Vec<ProfileSpec> {
         vec![
-            ProfileSpec { name: "bookkeeping", quick: 15_000, thorough: 400_000 },
-            ProfileSpec { name: "honest-swarm", quick: 2000, thorough: 40_000 },
+            ProfileSpec { name: "bookkeeping", quick: 15_000, thorough: 1_000_000 },
+            ProfileSpec { name: "honest-swarm", quick: 2000, thorough: 100_000 },
         ]
     }
     fn rule(&self) -> &'static str {
@@ -169,9 +169,9 @@ impl Check for C13 {
     }
     fn profiles(&self) -> Vec<ProfileSpec> {
         vec![
-            ProfileSpec { name: "bookkeeping", quick: 4000, thorough: 120_000 },
-            ProfileSpec { name: "honest-swarm", quick: 4000, thorough: 80_000 },
-            ProfileSpec { name: "adversary-mix", quick: 4000, thorough: 80_000 },
+            ProfileSpec { name: "bookkeeping", quick: 4000, thorough: 300_000 },
+            ProfileSpec { name: "honest-swarm", quick: 4000, thorough: 200_000 },
+            ProfileSpec { name: "adversary-mix", quick: 4000, thorough: 200_000 },
         ]
     }
     fn rule(&self) -> &'static str {
@@ -261,8 +261,8 @@ impl Check for C14 {
     }
     fn profiles(&self) -> Vec<ProfileSpec> {
         vec![
-            ProfileSpec { name: "choking", quick: 4000, thorough: 120_000 },
-            ProfileSpec { name: "bookkeeping", quick: 4000, thorough: 80_000 },
+            ProfileSpec { name: "choking", quick: 4000, thorough: 300_000 },
+            ProfileSpec { name: "bookkeeping", quick: 4000, thorough: 200_000 },
         ]
     }
     fn rule(&self) -> &'static str {
